@@ -108,6 +108,26 @@ Router::~Router()
 {
     m_currently_calling_destructors = true;
 
+    // Free objects that were created but never became part of the scene
+    // because no transaction was processed after they were created.
+    ActionInfoList pendingActions = actionList;
+    for (ActionInfoList::iterator curr = pendingActions.begin();
+            curr != pendingActions.end(); ++curr)
+    {
+        if ((curr->type == ConnChange) && !curr->conn()->m_active)
+        {
+            delete curr->conn();
+        }
+    }
+    for (ActionInfoList::iterator curr = pendingActions.begin();
+            curr != pendingActions.end(); ++curr)
+    {
+        if ((curr->type == ShapeAdd) || (curr->type == JunctionAdd))
+        {
+            delete curr->obstacle();
+        }
+    }
+
     // Delete remaining connectors.
     ConnRefList::iterator conn = connRefs.begin();
     while (conn != connRefs.end())
